@@ -13,13 +13,68 @@ from .. import terms as T
 from ..model import AnchorMissing, Unrecognised, unparse
 from ..vn import NONE, VN, State, cond_text, is_tuple
 
+# per simulator: the *parameters* that are documented as real-valued (positions, gradients, dwell time, off-resonance map).  Local names
+# never appear here: the state pair, the regulariser and every intermediate are identified by their role in the data flow.
 SIMS = {
-    "sigpy.mri.rf.sim.abrm": dict(state=("a", "b"), real={"x", "om", "g", "phi"}, env={"eps": 0}),
-    "sigpy.mri.rf.sim.abrm_nd": dict(state=("a", "b"), real={"x", "g", "om", "phi"}, env={"eps": 0}),
-    "sigpy.mri.rf.sim.abrm_hp": dict(state=("a", "b"), real={"xx", "gamgdt", "dom0dt", "Nt"}, env={}),
-    "sigpy.mri.rf.sim.abrm_ptx": dict(state=("statea", "stateb"), real={"x", "g", "dt", "gam", "bz", "phi", "fmap"}, env={}),
-    "sigpy.mri.rf.optcont.blochsim": dict(state=("a", "b"), real={"x", "g"}, env={}),
+    "sigpy.mri.rf.sim.abrm": dict(real={"x"}),
+    "sigpy.mri.rf.sim.abrm_nd": dict(real={"x", "g"}),
+    "sigpy.mri.rf.sim.abrm_hp": dict(real={"xx", "gamgdt", "dom0dt"}),
+    "sigpy.mri.rf.sim.abrm_ptx": dict(real={"x", "g", "dt", "fmap"}),
+    "sigpy.mri.rf.optcont.blochsim": dict(real={"x", "g"}),
 }
+
+
+def _zero_regularisers(env):
+    """a local bound to a numeric constant of magnitude <= 1e-9 is a division regulariser: read as 0 (stated assumption)"""
+    out = dict(env)
+    for k, v in env.items():
+        if isinstance(v, T.Poly):
+            fr = v.as_fraction()
+            if fr is not None and 0 < abs(fr) <= 1e-9:
+                out[k] = T.const(0)
+    return out
+
+
+def _assigned_names(stmts):
+    out = []
+    for s in stmts:
+        for n in ast.walk(s):
+            tg = []
+            if isinstance(n, ast.Assign):
+                tg = n.targets
+            elif isinstance(n, ast.AugAssign):
+                tg = [n.target]
+            for t in tg:
+                for x in ast.walk(t):
+                    if isinstance(x, ast.Name) and isinstance(x.ctx, ast.Store) and x.id not in out:
+                        out.append(x.id)
+    return out
+
+
+def find_state(M, f, pre_env, loop, real):
+    """the Cayley-Klein pair = the two variables that exist before the time loop and whose value after one iteration depends on their
+    own previous value (self-recurrent); ordered (alpha, beta) by their initial values (ones, zeros)"""
+    names = [n for n in _assigned_names(loop.body) if n in pre_env]
+    env = dict(pre_env)
+    for n in names:
+        env[n] = T.sym(n)
+    if isinstance(loop.target, ast.Name):
+        env[loop.target.id] = T.sym("t", real=True)
+    outs = [o for o in SimVN(M, f, real=real).run(loop.body, State(env)) if o.status == "live"]
+    rec = []
+    for n in names:
+        for o in outs:
+            v = o.env.get(n)
+            if isinstance(v, T.Poly) and v != T.sym(n) and n in T.symbols(v) and n not in rec:
+                rec.append(n)
+    if len(rec) != 2:
+        raise Unrecognised("%s: expected exactly two self-recurrent state variables in the time loop, found %s" % (f.qual, rec), loop)
+    init = {n: T.show(pre_env[n], 200) if isinstance(pre_env[n], T.Poly) else "" for n in rec}
+    alpha = [n for n in rec if "ones" in init[n]]
+    beta = [n for n in rec if "zeros" in init[n]]
+    if len(alpha) == 1 and len(beta) == 1:
+        return (alpha[0], beta[0]), True
+    return tuple(rec), False
 
 
 class SimVN(VN):
@@ -70,7 +125,6 @@ def check(run, M, tier):
     n_sites = 0
     for q, cfg in SIMS.items():
         f = M.func(q)
-        names = cfg["state"]
         # locate the time loop (first For at the top level of the `with device:` block)
         body = f.body
         withs = [s for s in body if isinstance(s, ast.With)]
@@ -83,12 +137,16 @@ def check(run, M, tier):
         pre, loop, post = body[:li], body[li], body[li + 1:]
         real = set(cfg["real"])
         vn = SimVN(M, f, real=real)
-        env0 = {k: T.const(v) for k, v in cfg["env"].items()}
-        pre_states = [o for o in vn.run(pre, State(dict(env0))) if o.status == "live"]
+        pre_states = [o for o in vn.run(pre, State()) if o.status == "live"]
+        for o in pre_states:
+            o.env = _zero_regularisers(o.env)
+        if not pre_states:
+            raise Unrecognised("%s: no live path reaches the time loop" % q, f.node)
+        names, init_ok = find_state(M, f, pre_states[0].env, loop, real)
         # Q3 initial state
         for o in pre_states[:1]:
             a0, b0 = o.env.get(names[0]), o.env.get(names[1])
-            ok = isinstance(a0, T.Poly) and isinstance(b0, T.Poly) and "ones" in T.show(a0, 200) and "zeros" in T.show(b0, 200)
+            ok = init_ok
             run.check(ok, "Q3", q.split(".")[-1] + " initial state", f.loc(), "starts from (ones, zeros)", "%s starts from (%s, %s); expected the identity rotation (1, 0)"
                       % (q, T.show(a0, 80), T.show(b0, 80)), stmt="Q3:" + q)
         # Q1 one iteration, all branch combinations
@@ -96,9 +154,6 @@ def check(run, M, tier):
             env = dict(ps.env)
             for i, nm in enumerate(names):
                 env[nm] = T.sym(nm)
-            for k in list(env):
-                if k in cfg["env"]:
-                    env[k] = T.const(cfg["env"][k])
             env[loop.target.id if isinstance(loop.target, ast.Name) else "_"] = T.sym("t", real=True)
             outs = [o for o in SimVN(M, f, real=real).run(loop.body, State(env, list(ps.conds))) if o.status == "live"]
             for o in outs:
@@ -118,8 +173,6 @@ def check(run, M, tier):
         env = dict(pre_states[0].env)
         for nm in names:
             env[nm] = T.sym(nm)
-        for k in cfg["env"]:
-            env[k] = T.const(cfg["env"][k])
         posts = [s for s in post if not isinstance(s, ast.Return)]
         outs = [o for o in SimVN(M, f, real=real).run(posts, State(env)) if o.status == "live"]
         for o in outs:
@@ -138,15 +191,27 @@ def check(run, M, tier):
             for what, held, detail in obs:
                 run.check(held, "Q2", label + " " + what, f.loc(), what,
                           "%s: the statements after the time loop violate %s (normalises to %s)" % (q, what, detail), stmt="Q2:%s:%s" % (label, what))
-        # returned pair is the state pair
+        # returned pair: the state pair itself, or (alpha, -conj(beta)) of it (abrm_ptx reports the pair in that convention)
         rets = [n for n in ast.walk(f.node) if isinstance(n, ast.Return) and n.value is not None]
-        okr = len(rets) == 1 and isinstance(rets[0].value, ast.Tuple) and [unparse(x) for x in rets[0].value.elts[:2]] == ["a", "b"]
-        run.check(okr, "Q2", q.split(".")[-1] + " return", f.loc(), "returns (a, b)", "%s returns `%s`" % (q, unparse(rets[0].value) if rets else "nothing"), stmt="Q2:ret:" + q)
-        if q.endswith("abrm_ptx"):
-            # a = statea ; b = -conj(stateb) inside the loop
-            asg = {unparse(n.targets[0]): unparse(n.value).replace(" ", "") for n in ast.walk(loop) if isinstance(n, ast.Assign) and unparse(n.targets[0]) in ("a", "b")}
-            run.check(asg == {"a": "statea", "b": "-xp.conj(stateb)"}, "Q2", "abrm_ptx output pair", f.loc(loop), "(a, b) = (statea, -conj(stateb))",
-                      "abrm_ptx reports (a, b) = %s" % asg, stmt="Q2:ptx-pair")
+        okr = False
+        shown = unparse(rets[0].value) if rets else "nothing"
+        if len(rets) == 1 and isinstance(rets[0].value, ast.Tuple) and len(rets[0].value.elts) >= 2:
+            env = dict(pre_states[0].env)
+            for nm in names:
+                env[nm] = T.sym(nm)
+            if isinstance(loop.target, ast.Name):
+                env[loop.target.id] = T.sym("t", real=True)
+            louts = [o for o in SimVN(M, f, real=real).run(loop.body, State(env)) if o.status == "live"]
+            okr = bool(louts)
+            for lo in louts:
+                r0 = SimVN(M, f, real=real).ev(rets[0].value.elts[0], State(lo.env))
+                r1 = SimVN(M, f, real=real).ev(rets[0].value.elts[1], State(lo.env))
+                s0, s1 = lo.env.get(names[0]), lo.env.get(names[1])
+                good = isinstance(r0, T.Poly) and isinstance(r1, T.Poly) and isinstance(s0, T.Poly) and isinstance(s1, T.Poly) and T.eq(r0, s0) \
+                    and (T.eq(r1, s1) or T.eq(r1, T.neg(T.conj(s1))))
+                okr = okr and good
+        run.check(okr, "Q2", q.split(".")[-1] + " return", f.loc(), "returns the state pair (alpha, beta) or (alpha, -conj(beta))",
+                  "%s returns `%s`, whose first two entries are not the simulated Cayley-Klein pair (%s, %s)" % (q, shown, names[0], names[1]), stmt="Q2:ret:" + q)
     run.floor("Q1", 6, n_sites, "state-update sites")
     # ---- Q4 ab2rf
     f = M.func("sigpy.mri.rf.slr.ab2rf")
@@ -155,27 +220,32 @@ def check(run, M, tier):
         raise Unrecognised("ab2rf has %d loops" % len(loop), f.node)
     inner = [s for s in loop[0].body if isinstance(s, ast.If)]
     stm = [s for s in loop[0].body if not isinstance(s, ast.If)] + (inner[0].body if inner else [])
-    vn = SimVN(M, f, real={"ii"})
-    env = {"a": T.sym("a"), "b": T.sym("b"), "ii": T.sym("ii", real=True)}
+    # roles: the polynomial pair = the two parameters; the step index = the loop variable; the output = the returned array
+    if len(f.params) != 2 or not isinstance(loop[0].target, ast.Name):
+        raise Unrecognised("ab2rf signature / loop shape changed", f.node)
+    pa, pb = f.params
+    lv = loop[0].target.id
+    retn = [unparse(n.value) for n in ast.walk(f.node) if isinstance(n, ast.Return) and n.value is not None]
+    env = {pa: T.sym("a"), pb: T.sym("b"), lv: T.sym("ii", real=True)}
 
     class PeelVN(SimVN):
-        # a[ii], b[ii] are the leading coefficients: treat as scalars `a_ii`, `b_ii`; a, b as vectors
+        # a[ii], b[ii] are the leading coefficients: scalars `a_ii`, `b_ii`; a, b are the coefficient vectors
         def ev_Subscript(self, e, st):
-            if isinstance(e.value, ast.Name) and e.value.id in ("a", "b") and unparse(e.slice) == "ii":
-                return T.sym(e.value.id + "_ii")
-            if isinstance(e.value, ast.Name) and e.value.id in ("at", "bt"):
-                return self.ev(e.value, st)  # the shifts at[1:ii+1], bt[0:ii] only re-index the polynomials
+            if isinstance(e.value, ast.Name) and e.value.id in (pa, pb) and unparse(e.slice) == lv:
+                return T.sym(("a" if e.value.id == pa else "b") + "_ii")
+            if isinstance(e.slice, ast.Slice):
+                return self.ev(e.value, st)  # the shifts p[1:ii+1], q[0:ii] only re-index the polynomials
             return SimVN.ev_Subscript(self, e, st)
 
         def assign(self, tgt, val, st, node):
-            if isinstance(tgt, ast.Subscript) and unparse(tgt.value) == "rf":
+            if isinstance(tgt, ast.Subscript) and unparse(tgt.value) in retn:
                 return
             return SimVN.assign(self, tgt, val, st, node)
-    outs = [o for o in PeelVN(M, f, real={"ii"}).run(stm, State(env)) if o.status == "live"]
+    outs = [o for o in PeelVN(M, f, real={lv}).run(stm, State(env)) if o.status == "live"]
     ok_any = False
     for o in outs:
         try:
-            obs = unitary_obligations(o.env.get("a"), o.env.get("b"), ("a", "b"))
+            obs = unitary_obligations(o.env.get(pa), o.env.get(pb), ("a", "b"))
         except (Unrecognised, TypeError) as e:
             run.bad("Q4", "ab2rf peel", f.loc(loop[0]), "the peel step of ab2rf is not a linear map of (a, b): %s" % e, stmt="Q4:lin")
             continue
